@@ -326,6 +326,13 @@ where
 {
     fn test_filter(&self, dataset: &ResultItem<'store, AnnotationDataSet>) -> bool {
         match &self.filter {
+            Filter::AnnotationDataSet(handle, _) => dataset.handle() == *handle,
+            Filter::DataSets(handles, FilterMode::Any, _) => {
+                handles.contains(&dataset.fullhandle())
+            }
+            Filter::BorrowedDataSets(handles, FilterMode::Any, _) => {
+                handles.contains(&dataset.fullhandle())
+            }
             Filter::DataSets(_, FilterMode::All, _) => {
                 unreachable!("not handled by this iterator but by FilterAllIter")
             }
